@@ -1411,4 +1411,179 @@ theorem clear_refines {rb : RB} {a : AState} (wf : WF rb) (R : Refines rb a) :
   rw [R.lines, R.cols]
   exact eraserect_refines wf R _
 
+/-! ## Programs -/
+
+/-- `restore` keeps a buffer well-formed (no hypothesis about the cursor is needed for that). -/
+theorem restore_wf {rb : RB} (wf : WF rb) : WF (RB.restore rb) := by
+  cases hrs : rb.stack with
+  | nil =>
+    have e1 : RB.restore rb = rb := by unfold RB.restore; rw [hrs]
+    rw [e1]; exact wf
+  | cons f prev =>
+    obtain ⟨r1, r2, r3, r4, r5, r6, r7, r8, r9, r10, r11, r12, r13, r14⟩ := restore_fields hrs
+    have hsame : ∀ L C, SameButMask (rb.cell L C) ((RB.restore rb).cell L C) := by
+      intro L C; rw [r3]; split <;> simp [SameButMask]
+    obtain ⟨_, hrows⟩ := maskonly_facts (rb := rb) (rb' := RB.restore rb) r1 r2 hsame
+    have hmd : ∀ L C, ((RB.restore rb).cell L C).maskdepth =
+        if 0 ≤ L ∧ L < rb.lines ∧ 0 ≤ C ∧ C < rb.cols ∧ (rb.cell L C).maskdepth > rb.depth - 1 then -1
+        else (rb.cell L C).maskdepth := by
+      intro L C; rw [r3]; split <;> rfl
+    have hdlen : rb.depth = (prev.length : Int) + 1 := by rw [wf.depth, hrs]; simp
+    refine ⟨?_, ?_, ?_, ?_, ?_, ?_, ?_, ?_, ?_⟩
+    · rw [r1, r2]; exact wf.size
+    · intro l x y; exact hrows l (wf.rows l x (by omega))
+    · intro l c; rw [hmd]; have := wf.maskLB l c; split <;> omega
+    · intro l c x y z w
+      rw [hmd, r11]
+      rw [r1] at y; rw [r2] at w
+      have ub := wf.maskUB l c x y z w
+      have lb := wf.maskLB l c
+      split <;> omega
+    · rw [r11, r12, hdlen]; omega
+    · rw [r1, r2, r9]
+      cases hp : f.penOnly with
+      | true => simp only [if_true]; exact wf.clip
+      | false => simp only [Bool.false_eq_true, if_false]; exact wf.frames f (by rw [hrs]; simp) hp
+    · rw [r1, r2, r12]; intro f' hf'; exact wf.frames f' (by rw [hrs]; exact List.mem_cons_of_mem _ hf')
+    · rw [r13]; exact wf.aborted
+    · rw [r14]; exact wf.fuelOut
+
+/-- When is an operation safe with respect to the one thing `save` forgets? -/
+def OpSafe (a : AState) : Op → Prop
+  | .restore => RestoreSafe a
+  | _ => True
+
+/-- **One step of the refinement**: every operation keeps the buffer well-formed and does to it what the
+    specification says (for `restore`: provided the cursor's set/unset state is what it was at `save`). -/
+theorem step_refines {rb : RB} {a : AState} (wf : WF rb) (R : Refines rb a) (o : Op) (safe : OpSafe a o) :
+    WF (RB.step rb o) ∧ Refines (RB.step rb o) (RBAbs.step a o) := by
+  cases o with
+  | textAt l c s => exact textAt_refines wf R l c s
+  | text s => exact text_refines wf R s
+  | eraseAt l c n => exact eraseAt_refines wf R l c n
+  | erase n => exact erase_refines wf R n
+  | eraseTo c => exact eraseTo_refines wf R c
+  | skipAt l c n => exact skipAt_refines wf R l c n
+  | skip n => exact skip_refines wf R n
+  | skipTo c => exact skipTo_refines wf R c
+  | charAt l c cp => exact charAt_refines wf R l c cp
+  | char cp => exact char_refines wf R cp
+  | hlineAt l c1 c2 st caps => exact hlineAt_refines wf R l c1 c2 st caps
+  | vlineAt l1 l2 c st caps => exact vlineAt_refines wf R l1 l2 c st caps
+  | clear => exact clear_refines wf R
+  | eraserect r => exact eraserect_refines wf R r
+  | skiprect r => exact skiprect_refines wf R r
+  | goto l c => exact goto_refines wf R l c
+  | ungoto => exact ungoto_refines wf R
+  | translate d r => exact translate_refines wf R d r
+  | clip r => exact clip_refines wf R r
+  | mask r => exact mask_refines wf R r
+  | setpen p => exact setpen_refines wf R p
+  | save => exact save_refines wf R
+  | savepen => exact savepen_refines wf R
+  | restore => exact restore_refines wf R safe
+  | reset => exact reset_refines wf R
+
+/-- Safety of a whole program, read off the specification's run. -/
+def ProgSafe : AState → List Op → Prop
+  | _, [] => True
+  | a, o :: rest => OpSafe a o ∧ ProgSafe (RBAbs.step a o) rest
+
+theorem run_refines : ∀ (prog : List Op) {rb : RB} {a : AState}, WF rb → Refines rb a → ProgSafe a prog →
+    WF (RB.run rb prog) ∧ Refines (RB.run rb prog) (RBAbs.run a prog) := by
+  intro prog
+  induction prog with
+  | nil => intro rb a wf R _; exact ⟨wf, R⟩
+  | cons o rest ih =>
+    intro rb a wf R safe
+    obtain ⟨w, q⟩ := step_refines wf R o safe.1
+    exact ih w q safe.2
+
+/-- A fresh buffer is well-formed and implements the fresh abstract buffer. -/
+theorem new_refines (lines cols g1 g2 : Int) (hl : 0 ≤ lines) (hc : 0 < cols) :
+    WF (RB.new lines cols g1 g2) ∧ Refines (RB.new lines cols g1 g2) (AState.new lines cols) := by
+  have hcell : ∀ l c, (RB.new lines cols g1 g2).cell l c =
+      if c = 0 then { state := .skip, maskdepth := -1, cols := cols } else { state := .cont, maskdepth := -1, cols := 0 } := fun _ _ => rfl
+  have hrow : ∀ l, RowWF cols ((RB.new lines cols g1 g2).cells l) := by
+    intro l
+    have S : ∀ k, (((RB.new lines cols g1 g2).cells l).get k).state = (if k = 0 then .skip else .cont) ∧
+        (((RB.new lines cols g1 g2).cells l).get k).cols = (if k = 0 then cols else 0) := by
+      intro k
+      have := hcell l k
+      unfold RB.cell at this
+      rw [this]; split <;> simp
+    have S0 := S 0
+    simp only [if_true] at S0
+    refine ⟨?_, ?_, ?_, ?_, ?_, ?_⟩
+    · intro k a b x
+      obtain ⟨s1, s2⟩ := S k
+      by_cases hk : k = 0
+      · rw [s1, if_pos hk] at x; cases x
+      · rw [s2, if_neg hk]; omega
+    · intro k a b x
+      obtain ⟨s1, s2⟩ := S k
+      by_cases hk : k = 0
+      · rw [s1, if_pos hk] at x; cases x
+      · rw [s2, if_neg hk, S0.1]; simp
+    · intro k a b x
+      obtain ⟨s1, s2⟩ := S k
+      by_cases hk : k = 0
+      · rw [s1, if_pos hk] at x; cases x
+      · rw [s2, if_neg hk, S0.2]; omega
+    · intro k a b x
+      obtain ⟨s1, s2⟩ := S k
+      by_cases hk : k = 0
+      · rw [s2, if_pos hk]; omega
+      · rw [s1, if_neg hk] at x; exact absurd rfl x
+    · intro k j a b x y z
+      obtain ⟨s1, s2⟩ := S k
+      by_cases hk : k = 0
+      · rw [s2, if_pos hk] at z
+        obtain ⟨t1, t2⟩ := S j
+        rw [t1, t2, if_neg (by omega), if_neg (by omega)]; exact ⟨rfl, hk.symm⟩
+      · rw [s1, if_neg hk] at x; exact absurd rfl x
+    · intro k a b x
+      obtain ⟨s1, s2⟩ := S k
+      by_cases hk : k = 0
+      · rw [s1, if_pos hk] at x; rcases x with x | x <;> cases x
+      · rw [s1, if_neg hk] at x; rcases x with x | x <;> cases x
+  have hmd : ∀ l c, ((RB.new lines cols g1 g2).cell l c).maskdepth = -1 := by
+    intro l c; rw [hcell]; split <;> rfl
+  have hlb : ∀ l c, -1 ≤ ((RB.new lines cols g1 g2).cell l c).maskdepth := by intro l c; rw [hmd]; omega
+  have hub : ∀ l c, 0 ≤ l → l < lines → 0 ≤ c → c < cols → ((RB.new lines cols g1 g2).cell l c).maskdepth ≤ 0 := by
+    intro l c _ _ _ _; rw [hmd]; omega
+  have hfr : ∀ f, f ∈ ([] : List Frame) → f.penOnly = false → ClipOK lines cols f.clip := by intro f hf; cases hf
+  refine ⟨⟨⟨hl, hc⟩, fun l _ _ => hrow l, hlb, hub, rfl, ?_, hfr, rfl, rfl⟩, ⟨rfl, rfl, ?_, ?_, rfl, rfl, rfl, ?_, rfl, ?_⟩⟩
+  · show ClipOK lines cols ⟨0, 0, lines, cols⟩
+    unfold ClipOK Rect.bottom Rect.right
+    simp only
+    by_cases h : lines = 0
+    · left; exact h
+    · right; omega
+  · intro L C
+    show Content.skip = absContent (RB.new lines cols g1 g2) L C
+    rw [absContent_eq]
+    show _ = if inBuf lines cols L C = true then _ else _
+    by_cases hb : inBuf lines cols L C = true
+    · rw [if_pos hb]
+      have s := hcell L C
+      have s0 := hcell L 0
+      unfold RB.cell at s s0
+      unfold rowContent cellContent
+      by_cases hc0 : C = 0
+      · rw [s, if_pos hc0]; simp
+      · rw [s, if_neg hc0]; simp [s0]
+    · rw [if_neg hb]
+  · intro L C
+    show false = absMasked (RB.new lines cols g1 g2) L C
+    unfold absMasked; rw [hmd]; simp
+  · intro L C
+    show inBuf lines cols L C = absClipRect ⟨0, 0, lines, cols⟩ L C
+    apply bool_ext
+    rw [inBuf_iff, absClipRect_iff]
+    simp only
+    omega
+  · show FramesRel _ 0 [] []
+    simp [FramesRel]
+
 end Tickit.RB
